@@ -6,17 +6,359 @@ M9 — what an OpenTelemetry-style implementation of the observability callbacks
 -/
 namespace Ebu.Bus
 
+namespace Otel
+open Obs
+
+/-! ### stack processing versus counts -/
+
+theorem stack_count (id : Nat) (l : List Ev) (st st' : List Nat) (h : obsStack l st = some st') :
+    (obsCompletes l).count id + st'.count id = (obsStarts l).count id + st.count id := by
+  induction l generalizing st with
+  | nil =>
+    simp only [obsStack, Option.some.injEq] at h
+    subst h
+    simp [obsCompletes, obsStarts]
+  | cons e l ih =>
+    cases e with
+    | obs d k i p ty f =>
+      cases k
+      case ps | hs | rs =>
+        simp only [obsStack] at h
+        have := ih _ h
+        simp only [obsCompletes, obsStarts, List.filterMap_cons, List.count_cons] at this ⊢
+        omega
+      all_goals
+        cases st with
+        | nil => simp [obsStack] at h
+        | cons top st'' =>
+          simp only [obsStack] at h
+          split at h
+          · rename_i ht
+            subst ht
+            have := ih _ h
+            simp only [obsCompletes, obsStarts, List.filterMap_cons, List.count_cons] at this ⊢
+            omega
+          · cases h
+    | _ =>
+      simp only [obsStack] at h
+      have := ih _ h
+      simp only [obsCompletes, obsStarts, List.filterMap_cons] at this ⊢
+      exact this
+
+theorem stack_length (l : List Ev) (st st' : List Nat) (h : obsStack l st = some st') :
+    (obsCompletes l).length + st'.length = (obsStarts l).length + st.length := by
+  induction l generalizing st with
+  | nil =>
+    simp only [obsStack, Option.some.injEq] at h
+    subst h
+    simp [obsCompletes, obsStarts]
+  | cons e l ih =>
+    cases e with
+    | obs d k i p ty f =>
+      cases k
+      case ps | hs | rs =>
+        simp only [obsStack] at h
+        have := ih _ h
+        simp only [obsCompletes, obsStarts, List.filterMap_cons, List.length_cons] at this ⊢
+        omega
+      all_goals
+        cases st with
+        | nil => simp [obsStack] at h
+        | cons top st'' =>
+          simp only [obsStack] at h
+          split at h
+          · have := ih _ h
+            simp only [obsCompletes, obsStarts, List.filterMap_cons, List.length_cons] at this ⊢
+            omega
+          · cases h
+    | _ =>
+      simp only [obsStack] at h
+      have := ih _ h
+      simp only [obsCompletes, obsStarts, List.filterMap_cons] at this ⊢
+      exact this
+
+/-! ### the counted predicates -/
+
+def pPs : Ev → Bool := fun e => match e with | .obs _ .ps .. => true | _ => false
+def pHs : Ev → Bool := fun e => match e with | .obs _ .hs .. => true | _ => false
+def pHcT : Ev → Bool := fun e => match e with | .obs _ .hc _ _ _ true => true | _ => false
+def pRs : Ev → Bool := fun e => match e with | .obs _ .rs .. => true | _ => false
+def pRcT : Ev → Bool := fun e => match e with | .obs _ .rc _ _ _ true => true | _ => false
+def pEnter : Ev → Bool := fun e => match e with | .enter .. => true | _ => false
+def pPanich : Ev → Bool := fun e => match e with | .panich .. => true | _ => false
+def pAppF : Ev → Bool := fun e => match e with | .append _ _ _ _ false _ => true | _ => false
+
+theorem starts_length (l : List Ev) :
+    (obsStarts l).length = l.countP pPs + l.countP pHs + l.countP pRs := by
+  induction l with
+  | nil => simp [obsStarts]
+  | cons e l ih =>
+    cases e with
+    | obs d k i p ty f =>
+      cases k <;> simp [obsStarts, List.countP_cons, pPs, pHs, pRs] at ih ⊢ <;> omega
+    | _ =>
+      simp [obsStarts, pPs, pHs, pRs] at ih ⊢
+      omega
+
+/-- events that take part in none of the counting equalities -/
+def neutral : Ev → Bool
+  | .obs _ .ps .. => true
+  | .obs _ .pc .. => true
+  | .obs .. => false
+  | .enter .. => false
+  | .panich .. => false
+  | .append .. => false
+  | _ => true
+
+/-- the counting invariant of a trace segment (when an Observability is installed) -/
+def Good (cfg : Config) (l : List Ev) : Prop :=
+  cfg.obs = true →
+    l.countP pHs = l.countP pEnter ∧ l.countP pRs = l.countP isAppend ∧
+    l.countP pRcT = l.countP pAppF ∧ (cfg.panicH = true → l.countP pHcT = l.countP pPanich)
+
+theorem Good.nil {cfg} : Good cfg [] := by
+  intro _; simp
+
+theorem Good.append {cfg l₁ l₂} (h₁ : Good cfg l₁) (h₂ : Good cfg l₂) : Good cfg (l₁ ++ l₂) := by
+  intro ho
+  obtain ⟨a1, b1, c1, d1⟩ := h₁ ho
+  obtain ⟨a2, b2, c2, d2⟩ := h₂ ho
+  simp only [List.countP_append]
+  refine ⟨by omega, by omega, by omega, fun hp => ?_⟩
+  have := d1 hp; have := d2 hp; omega
+
+theorem Good.single {cfg} (e : Ev) (h : neutral e = true) : Good cfg [e] := by
+  intro _
+  cases e with
+  | obs d k i p ty f => cases k <;> simp_all [neutral, pHs, pEnter, pRs, isAppend, pRcT, pAppF, pHcT, pPanich]
+  | _ => simp_all [neutral, pHs, pEnter, pRs, isAppend, pRcT, pAppF, pHcT, pPanich]
+
+theorem Good.optSingle {cfg} (b : Bool) (e : Ev) (h : neutral e = true) :
+    Good cfg (if b then [e] else []) := by
+  cases b
+  · exact Good.nil
+  · exact Good.single e h
+
+/-! ### extension of a core state by a good segment -/
+
+def GExt (cfg : Config) (c c' : Core) : Prop := ∃ l, c'.trace = c.trace ++ l ∧ Good cfg l
+
+theorem GExt.of_eq {cfg} {c c' : Core} (ht : c'.trace = c.trace) : GExt cfg c c' :=
+  ⟨[], by simp [ht], Good.nil⟩
+
+theorem GExt.refl {cfg} {c : Core} : GExt cfg c c := GExt.of_eq rfl
+
+theorem GExt.trans {cfg} {c₁ c₂ c₃ : Core} (h₁ : GExt cfg c₁ c₂) (h₂ : GExt cfg c₂ c₃) :
+    GExt cfg c₁ c₃ := by
+  obtain ⟨l₁, e₁, s₁⟩ := h₁
+  obtain ⟨l₂, e₂, s₂⟩ := h₂
+  exact ⟨l₁ ++ l₂, by rw [e₂, e₁, List.append_assoc], s₁.append s₂⟩
+
+theorem GExt.emit {cfg} (c : Core) (e : Ev) (hn : neutral e = true) : GExt cfg c (c.emit e) :=
+  ⟨[e], Core.trace_emit c e, Good.single e hn⟩
+
+theorem GExt.emitIf {cfg} (b : Bool) (c : Core) (e : Ev) (hn : neutral e = true) :
+    GExt cfg c (emitIf b c e) := by
+  cases b
+  · exact GExt.refl
+  · exact GExt.emit c e hn
+
+theorem persistEvs_good (cfg : Config) (d ty v sid obsParent : Nat) (c : Core) :
+    Good cfg (persistEvs cfg d ty v sid obsParent c) := by
+  intro ho
+  unfold persistEvs
+  cases hf : c.appendFaults.headD false <;> cases cfg.perrH <;>
+    simp [ho, List.countP_cons, pHs, pEnter, pRs, isAppend, pRcT, pAppF, pHcT, pPanich]
+
+theorem persist_gext (cfg : Config) (d ty v : Nat) (bad : Bool) (obsParent : Nat) (c : Core) :
+    GExt cfg c (persist cfg d ty v bad obsParent c) := by
+  cases hs : cfg.store with
+  | none =>
+    have : persist cfg d ty v bad obsParent c = c := by simp [persist, hs]
+    rw [this]; exact GExt.refl
+  | some sid =>
+    cases bad with
+    | true =>
+      have : persist cfg d ty v true obsParent c = emitIf cfg.perrH c (.perr d ty v true) := by
+        simp [persist, hs]
+      rw [this]; exact GExt.emitIf _ _ _ rfl
+    | false =>
+      obtain ⟨ht, -⟩ := persist_trace cfg d ty v obsParent c sid hs
+      exact ⟨_, ht, persistEvs_good cfg d ty v sid obsParent c⟩
+
+/-! ### one level of the semantics -/
+
+section step
+variable {R : Type} (I : RegImpl R) (cfg : Config) (rec : Frame → St R → Action → St R)
+
+def RecG : Prop := ∀ fr s a, GExt cfg s.c (rec fr s a).c
+
+variable {cfg rec}
+
+theorem runBody_gext (h : RecG cfg rec) (fr : Frame) (s : St R) (acts : List Action) :
+    GExt cfg s.c (runBody rec fr s acts).c := by
+  unfold runBody
+  induction acts generalizing s with
+  | nil => exact GExt.refl
+  | cons a as ih =>
+    simp only [List.foldl_cons]
+    refine GExt.trans ?_ (ih _)
+    split
+    · exact GExt.refl
+    · exact h fr s a
+
+theorem enter_good (d i op ty : Nat) (async : Bool) (rid v : Nat) (ctx : Option Nat) :
+    Good cfg ((if cfg.obs then [Ev.obs d .hs i op ty async] else []) ++ [Ev.enter (d + 1) rid ty v ctx async]) := by
+  intro ho
+  simp [ho, List.countP_cons, pHs, pEnter, pRs, isAppend, pRcT, pAppF, pHcT, pPanich]
+
+theorem bodyResult_gext (h : RecG cfg rec) (r : Reg) (ty v root op d : Nat) (async : Bool) (s : St R) :
+    GExt cfg s.c (bodyResult cfg rec r ty v root op d async s).c := by
+  obtain ⟨ht, -⟩ := enterHandler_trace (cfg := cfg) r ty v root op d async s
+  have hb : bodyResult cfg rec r ty v root op d async s = runBody rec
+    { depth := d + 1, root := root, obs := (enterHandler cfg r ty v root op d async s).2, ctxAware := r.ctxAware }
+    (enterHandler cfg r ty v root op d async s).1 (cfg.bodies.getD r.body []) := rfl
+  rw [hb]
+  refine GExt.trans ⟨_, ?_, enter_good d s.c.nextObs op ty async r.rid v (if r.ctxAware then some root else none)⟩ (runBody_gext h _ _ _)
+  rw [ht, List.append_assoc]
+
+theorem exit_good (d rid : Nat) (ca : Bool) (ty v i : Nat) (pv : Option Nat) :
+    Good cfg (([Ev.exit (d + 1) rid] ++
+        (match pv with
+          | some val => if cfg.panicH then [Ev.panich d ca ty v val] else []
+          | none => [])) ++
+        (if cfg.obs then [Ev.obs d .hc i 0 ty pv.isSome] else [])) := by
+  intro ho
+  cases pv <;> cases hp : cfg.panicH <;>
+    simp [ho, List.countP_cons, pHs, pEnter, pRs, isAppend, pRcT, pAppF, pHcT, pPanich]
+
+theorem callHandler_gext (h : RecG cfg rec) (r : Reg) (ty v root op d : Nat) (async : Bool) (s : St R) :
+    GExt cfg s.c (callHandler cfg rec r ty v root op d async s).c := by
+  obtain ⟨ht, -⟩ := callHandler_trace (cfg := cfg) (rec := rec) r ty v root op d async s
+  rw [List.append_assoc] at ht
+  exact GExt.trans (bodyResult_gext h r ty v root op d async s) ⟨_, ht, exit_good _ _ _ _ _ _ _⟩
+
+theorem deliver_gext (h : RecG cfg rec) (ty v root obs d : Nat) (acc : St R × List Reg) (r : Reg) :
+    GExt cfg acc.1.c (deliver cfg rec ty v root obs d acc r).1.c := by
+  obtain ⟨s, claimed⟩ := acc
+  unfold deliver
+  cases ho : r.once <;> cases hf : r.filt <;>
+    simp only [Bool.false_eq_true, ↓reduceIte, Bool.false_and, Bool.true_and] <;> repeat' split
+  all_goals first
+    | exact GExt.of_eq rfl
+    | (refine GExt.trans ?_ (callHandler_gext h _ _ _ _ _ _ _ _); exact GExt.of_eq rfl)
+    | (refine GExt.trans (GExt.emit s.c (Ev.filt d r.rid v (r.accepts v)) rfl) ?_; exact GExt.of_eq rfl)
+    | (refine GExt.trans (GExt.emit s.c (Ev.filt d r.rid v (r.accepts v)) rfl) ?_
+       refine GExt.trans ?_ (callHandler_gext h _ _ _ _ _ _ _ _); exact GExt.of_eq rfl)
+
+theorem loop_gext (h : RecG cfg rec) (ty v root obs d : Nat) (hs : List Reg) (acc : St R × List Reg) :
+    GExt cfg acc.1.c (hs.foldl (deliver cfg rec ty v root obs d) acc).1.c := by
+  induction hs generalizing acc with
+  | nil => exact GExt.refl
+  | cons r rs ih => exact GExt.trans (deliver_gext h ty v root obs d acc r) (ih _)
+
+theorem pubMid_gext (h : RecG cfg rec) (root obs d ty v : Nat) (bad : Bool) (s : St R) :
+    GExt cfg s.c (pubMid I cfg rec root obs d ty v bad s).c := by
+  let s1 : St R := { s with c := emitIf cfg.hookBL s.c (.hook d .bl ty v) }
+  let s2 : St R := { s1 with c := emitIf cfg.hookBC s1.c (.hook d .bc ty v) }
+  let s3 : St R := { s2 with c := persist cfg d ty v bad obs s2.c }
+  let res := (I.get s3.reg ty).foldl (deliver cfg rec ty v root obs d) (s3, [])
+  let s4 : St R := if res.2.isEmpty then res.1
+    else { res.1 with reg := I.set res.1.reg ty (retire res.2 (I.get res.1.reg ty)) }
+  let s5 : St R := { s4 with c := emitIf cfg.hookAL s4.c (.hook d .al ty v) }
+  have h1 : GExt cfg s.c s1.c := GExt.emitIf _ _ _ rfl
+  have h2 : GExt cfg s1.c s2.c := GExt.emitIf _ _ _ rfl
+  have h3 : GExt cfg s2.c s3.c := persist_gext cfg d ty v bad obs _
+  have h4 : GExt cfg s3.c res.1.c := loop_gext h ty v root obs d _ (s3, [])
+  have h5 : GExt cfg res.1.c s4.c := by
+    show GExt _ _ (St.c (if _ then _ else _))
+    split <;> exact GExt.refl
+  have h6 : GExt cfg s4.c s5.c := GExt.emitIf _ _ _ rfl
+  have h7 : GExt cfg s5.c (pubMid I cfg rec root obs d ty v bad s).c :=
+    GExt.emitIf cfg.hookAC s5.c (.hook d .ac ty v) rfl
+  exact h1.trans (h2.trans (h3.trans (h4.trans (h5.trans (h6.trans h7)))))
+
+theorem pubTail_gext (h : RecG cfg rec) (d root obs0 ty v : Nat) (bad : Bool) (s : St R) :
+    GExt cfg s.c (pubTail I cfg rec d root obs0 ty v bad s).c := by
+  obtain ⟨ht, -⟩ := pubStart_c (cfg := cfg) d obs0 ty s
+  have h1 : GExt cfg s.c (pubStart cfg d obs0 ty s).c := ⟨_, ht, Good.optSingle _ _ rfl⟩
+  have h2 := pubMid_gext (I := I) h root (if cfg.obs then s.c.nextObs else obs0) d ty v bad
+    (pubStart cfg d obs0 ty s)
+  refine h1.trans (h2.trans ?_)
+  show GExt _ _ (emitIf cfg.obs _ _)
+  exact GExt.emitIf _ _ _ rfl
+
+theorem publish_gext (h : RecG cfg rec) (fr : Frame) (ty v : Nat) (bad : Bool) (sel : CtxSel) (s : St R) :
+    GExt cfg s.c (publish I cfg rec fr ty v bad sel s).c := by
+  rw [publish_eq]
+  obtain ⟨ht, -⟩ := pubPre_c fr sel s
+  exact GExt.trans (GExt.of_eq ht) (pubTail_gext I h _ _ _ _ _ _ _)
+
+theorem runPending_gext (h : RecG cfg rec) (p : Pending) (s : St R) :
+    GExt cfg s.c (runPending cfg rec p s).c := by
+  unfold runPending
+  split
+  · exact GExt.refl
+  · exact callHandler_gext h _ _ _ _ _ _ _ _
+
+theorem step_gext (h : RecG cfg rec) : RecG cfg (step I cfg rec) := by
+  intro fr s a
+  cases a <;> simp only [step]
+  case drain =>
+    split
+    · exact GExt.refl
+    · split
+      · exact GExt.refl
+      · refine GExt.trans (GExt.trans (GExt.of_eq rfl) ?_) (h fr _ .drain)
+        exact runPending_gext h _ _
+  case publish =>
+    split
+    · exact GExt.emit _ _ rfl
+    · exact publish_gext I h _ _ _ _ _ _
+  all_goals first
+    | exact GExt.of_eq rfl
+    | exact GExt.emit _ _ rfl
+    | (split <;> first | exact GExt.of_eq rfl | exact GExt.emit _ _ rfl)
+
+end step
+
+theorem exec_gext {R : Type} (I : RegImpl R) (cfg : Config) (n : Nat) : RecG cfg (exec I cfg n) := by
+  induction n with
+  | zero => intro fr s a; exact GExt.of_eq rfl
+  | succ n ih => intro fr s a; exact step_gext I ih fr s a
+
+theorem run_gext {R : Type} (I : RegImpl R) (cfg : Config) (fuel : Nat) (prog : List Action) (s : St R) :
+    GExt cfg s.c (prog.foldl (fun s a => exec I cfg fuel {} s a) s).c := by
+  induction prog generalizing s with
+  | nil => exact GExt.refl
+  | cons a as ih => exact GExt.trans (exec_gext I cfg fuel {} s a) (ih _)
+
+theorem run_good {R : Type} (I : RegImpl R) (cfg : Config) (fuel : Nat) (faults : List Bool)
+    (prog : List Action) : Good cfg (run I cfg fuel faults prog).c.trace := by
+  obtain ⟨l, hl, hs⟩ := run_gext I cfg fuel prog (initSt I faults)
+  have h0 : (initSt I faults).c.trace = [] := rfl
+  rw [h0, List.nil_append] at hl
+  unfold run
+  rw [hl]
+  exact hs
+
+end Otel
+
+open Otel
+
 /-- a balanced trace with fresh span ids ends every span it starts exactly once -/
 theorem balanced_fresh_ended_once (l : List Ev) (hb : obsStack l [] = some []) (hn : (obsStarts l).Nodup) (id : Nat) :
     (obsCompletes l).count id = (obsStarts l).count id ∧ (obsStarts l).count id ≤ 1 := by
-  sorry
+  refine ⟨?_, List.nodup_iff_count.1 hn id⟩
+  have := stack_count id l [] [] hb
+  simpa using this
 
 /-- in every run each span that is started is ended exactly once -/
 theorem spans_ended_exactly_once {R : Type} (I : RegImpl R) (cfg : Config) (fuel : Nat) (faults : List Bool)
     (prog : List Action) (id : Nat) :
     let tr := (run I cfg fuel faults prog).c.trace
-    (obsCompletes tr).count id = (obsStarts tr).count id ∧ (obsStarts tr).count id ≤ 1 := by
-  sorry
+    (obsCompletes tr).count id = (obsStarts tr).count id ∧ (obsStarts tr).count id ≤ 1 :=
+  balanced_fresh_ended_once _ (obs_balanced_run I cfg fuel faults prog) (obs_ids_fresh I cfg fuel faults prog) id
 
 /-- with an Observability installed the counters equal the true numbers: handler runs = handler
 invocations, persist attempts = append attempts, persist failures = failed appends, and – when a
@@ -29,6 +371,10 @@ theorem counters_truthful {R : Type} (I : RegImpl R) (cfg : Config) (fuel : Nat)
     s.started = s.ended ∧ s.handlerRuns = (trueCounts tr).1 ∧ s.persistAttempts = (trueCounts tr).2.2.1 ∧
     s.persistErrors = (trueCounts tr).2.2.2 ∧ (cfg.panicH = true → s.handlerErrors = (trueCounts tr).2.1) ∧
     s.started = s.publishes + s.handlerRuns + s.persistAttempts := by
-  sorry
+  intro tr s
+  obtain ⟨a, b, c, d⟩ := run_good I cfg fuel faults prog hobs
+  have hl := stack_length tr [] [] (obs_balanced_run I cfg fuel faults prog)
+  simp only [List.length_nil, Nat.add_zero] at hl
+  exact ⟨hl.symm, a, b, c, d, starts_length tr⟩
 
 end Ebu.Bus
